@@ -31,7 +31,7 @@ def run_functions(prop, contract_module, function_names, kinds='all', src_dir=No
     from .clang_ast import TU, FrontEndError
     from .verify import verify_function, SAFETY_KINDS, FUNCTIONAL_KINDS
     from . import replay as rp
-    src_dir = src_dir or os.environ.get('VERIF_C_SRC', DEFAULT_SRC)
+    src_dir = src_dir or os.environ.get('VERIF_C_SRC') or default_src()
     reg = load_registry(contract_module)
     out = {'functions': [], 'results': [], 'assumptions': [], 'trusted': list(TRUSTED)}
     path = c_file or src_path(reg, src_dir)
@@ -102,8 +102,19 @@ def c_units(prop, contract_module, function_names=None, kinds='all', src_dir=Non
     return us
 
 
-def scan_unit(prop, which, src_dir=None, tiers=('quick', 'thorough'), weight=1):
+def scan_unit(prop, which, src_dir=None, tiers=('quick', 'thorough'), weight=10, chunk=None):
+    """whole-library front-end scan `which` in ('static_const', 'alloc_checked', 'const_index') over every src/*.c;
+    chunk=(i, n) restricts the unit to the i-th of n slices of the file list"""
     def run():
         from . import scan
-        return scan.run_scan(prop, which, src_dir or os.environ.get('VERIF_C_SRC', DEFAULT_SRC))
-    return Unit('scan.' + which, run, 'cvc-scan', tiers, weight)
+        return scan.run_scan(prop, which, src_dir or os.environ.get('VERIF_C_SRC') or default_src(), chunk)
+    uid = 'scan.' + which + ('' if chunk is None else '.%d_of_%d' % (chunk[0] + 1, chunk[1]))
+    return Unit(uid, run, 'cvc-scan', tiers, weight)
+
+
+def scan_units(prop, which, nchunks=8, src_dir=None, tiers=('quick', 'thorough')):
+    return [scan_unit(prop, which, src_dir, tiers, 10, (i, nchunks)) for i in range(nchunks)]
+
+
+def default_src():
+    return os.environ.get('VERIF_REPO_SRC') or os.path.join(os.environ.get('VERIF_REPO', '/repo'), 'src')
